@@ -6,6 +6,7 @@
 //            plan-chosen capacity and start offset
 //   layer S: two real mpt_stream objects over a simulated descriptor pair
 #include "worlds/common.hpp"
+#include <type_traits>
 #include "kernel/simio.hpp"
 #include <fcntl.h>
 #include <poll.h>
@@ -19,6 +20,10 @@ enum { FL_NONE, FL_ALLOC, FL_SHORT, FL_EAGAIN, FL_EINTR };
 static const char *const OPS[] = {"W_PUSH", "W_TERM", "W_FLUSH", "NET_DELIVER", "R_RECV", "R_PEEK", "W_CRASH", "R_POLL", "W_ABORT", 0};
 static const char *const FAULTS[] = {"none", "allocfail", "short", "eagain", "eintr", 0};
 
+template <typename T> static bool try_copy_obj(T &from) {
+	if constexpr (std::is_copy_constructible<T>::value) { Sut s; T c(from); (void) c; return true; }
+	else return false;
+}
 struct PipeWorld : World {
 	const char *name() const override { return "pipe"; }
 	const char *const *opnames() const override { return OPS; }
@@ -566,6 +571,8 @@ struct PipeWorld : World {
 		if (rc < 0) fail("setup", "mpt_stream_dopen(read) failed %d", rc);
 		Rx rx{this, &R, &log, &st, 0};
 		uint64_t eof_seen = 0, delim_count = 0;
+		// (where the C++ stream types can be copied at all, a copy that is made and goes away is nobody's close: both streams keep working)
+		if (p.seed & 8) { bool c1 = try_copy_obj(ws), c2 = try_copy_obj(rs), c3 = try_copy_obj(ws._info); log.ev("copies of writer stream %d, reader stream %d, stream info %d", (int) c1, (int) c2, (int) c3); st.hit(c1 || c2 || c3 ? "probe:cxx_stream_copied" : "probe:cxx_stream_not_copyable"); }
 
 		auto abstract = [&](int opk, int outcome) {
 			const queue &eq = ws._wd, &dq = rs._rd;
